@@ -548,6 +548,18 @@ class BaseParser:
 
         # check dependencies before addition
 
+        if len(result) > 1:
+            # the fields in declaration order (as field_first_parse yields them), not in input order:
+            # the order decides the key order of the instance and the order in which property setters run
+            ordered = {}
+            for key, field in self.fields.items():
+                name = field.attname if as_attname else field.name
+                if name in result:
+                    ordered[name] = result[name]
+            if len(ordered) != len(result):
+                ordered.update(result)
+            result = ordered
+
         if addition:
             result.update(addition)
 
